@@ -288,6 +288,13 @@ def _run_history(case, spy):
             lcbd = _gaussian_acquisition(Q, m, acq_func="LCBd", acq_func_kwargs={"kappa": kappa})
             res["acq"] = {"lcbd_ok": bool(np.array_equal(lcbd, mu2 - kappa * ep)), "lcb_ok": bool(np.array_equal(lcb, mu1 - kappa * sd)),
                           "lcbd": np.asarray(lcbd).tolist(), "want": (mu2 - kappa * ep).tolist(), "other": {}}
+            # special / extreme exploration weights: kappa = "inf" (pure exploration: minus the std), 0 (pure exploitation), huge
+            for kp in ("inf", 0.0, 1e6):
+                for name, mu_, sd_ in (("LCB", mu1, sd), ("LCBd", mu2, ep)):
+                    got = np.asarray(_gaussian_acquisition(Q, m, acq_func=name, acq_func_kwargs={"kappa": kp}), dtype=float)
+                    want = -np.asarray(sd_, dtype=float) if kp == "inf" else np.asarray(mu_, dtype=float) - kp * np.asarray(sd_, dtype=float)
+                    res["acq"]["other"][f"{name}(kappa={kp})"] = {"ok": bool(np.array_equal(got, want)), "got": got.tolist(), "want": want.tolist(),
+                                                                 "total_std": np.asarray(sd).tolist(), "epistemic_std": np.asarray(ep).tolist()}
             # EId / PId / MESd: the `d` variant on the forest must equal the plain variant on a stand-in model whose
             # std IS the epistemic std (and differ from it on a stand-in with the total std whenever the two stds differ)
             import inspect
@@ -301,8 +308,9 @@ def _run_history(case, spy):
 
             has_rs = "random_state" in inspect.signature(_gaussian_acquisition).parameters
             y_opt = float(np.min(mu1))
-            for name in ("EI", "PI", "MES"):
-                kw = {"acq_func_kwargs": {"xi": 0.01, "kappa": kappa}, "y_opt": y_opt}
+            spread = float(np.max(mu1) - np.min(mu1)) or 1.0
+            for name, xi in (("EI", 0.01), ("PI", 0.01), ("MES", 0.01), ("EI", 0.0), ("PI", 0.0), ("EI", 10.0 * spread), ("PI", -0.5 * spread)):
+                kw = {"acq_func_kwargs": {"xi": xi, "kappa": kappa}, "y_opt": y_opt}
 
                 def call(model, acq_func):
                     k2 = dict(kw)
@@ -314,8 +322,8 @@ def _run_history(case, spy):
 
                 vd = call(m, name + "d")
                 v_ep = call(_Stub(np.asarray(mu2, dtype=float), np.asarray(ep, dtype=float)), name)
-                res["acq"]["other"][name] = {"ok": bool(np.allclose(vd, v_ep, rtol=1e-12, atol=0.0, equal_nan=True)),
-                                             "d": vd.tolist(), "want": v_ep.tolist()}
+                res["acq"]["other"][name + ("d" if xi == 0.01 else f"d(xi={xi:g})")] = {"ok": bool(np.allclose(vd, v_ep, rtol=1e-12, atol=0.0, equal_nan=True)),
+                                                                                        "d": vd.tolist(), "want": v_ep.tolist()}
         except Exception as e:
             res["acq"] = {"error": f"{type(e).__name__}: {e}"}
     return res
@@ -418,9 +426,11 @@ def _evaluate(ck, case, res, reqs, idx, early, reps):
             if not acq["lcb_ok"]:
                 fails.append(("acquisition-total", "LCB is not mean - kappa * total std", len(checks) - 1, None))
             for name, o in acq.get("other", {}).items():
-                ck.count(f"acq_d_checked:{name}d")
+                ck.count("acq_checked:" + name.split("(")[0])
                 if not o["ok"]:
-                    fails.append(("d-acquisition-epistemic", f"{name}d is not {name} evaluated with the epistemic std", len(checks) - 1, {name + "d": o}))
+                    clause = "acquisition-total" if name.startswith("LCB(") else "d-acquisition-epistemic"
+                    fails.append((clause, f"{name} is not the acquisition evaluated with the " + ("total" if clause == "acquisition-total" else "epistemic") + " std",
+                                  len(checks) - 1, {name: o}))
                     break
     return fails, l2
 
@@ -535,7 +545,7 @@ def _handle(ck, d, spy, case, budget):
         done.add(clause)
         ck.count("oracle:" + clause)
         if clause in ("d-acquisition-epistemic", "acquisition-total"):
-            which = ",".join(sorted(k for k in (detail or {}) if k.endswith("d") and k[:-1] in ("EI", "PI", "MES"))) or ("LCBd" if clause.startswith("d-") else "LCB")
+            which = ",".join(sorted(k.replace("1e+06", "huge") for k in (detail or {}) if k.split("(")[0] in ("EId", "PId", "MESd", "LCB", "LCBd"))) or ("LCBd" if clause.startswith("d-") else "LCB")
             ck.fail(f"C18|{clause}|_gaussian_acquisition|{which}", what, case, detail)
             continue
         if budget.get(clause, 0) >= 4:
@@ -591,7 +601,7 @@ def replay(ck, case):
                 continue
             seen.add(clause)
             if clause in ("d-acquisition-epistemic", "acquisition-total"):
-                which = ",".join(sorted(q for q in (detail or {}) if q.endswith("d") and q[:-1] in ("EI", "PI", "MES"))) or ("LCBd" if clause.startswith("d-") else "LCB")
+                which = ",".join(sorted(q for q in (detail or {}) if q.split("(")[0] in ("EId", "PId", "MESd", "LCB", "LCBd"))) or ("LCBd" if clause.startswith("d-") else "LCB")
                 ck.fail(f"C18|{clause}|_gaussian_acquisition|{which}", what, case, detail)
                 continue
             shrunk, opts, f2 = _classify(ck, d, spy, case, res, clause, k)
